@@ -23,6 +23,7 @@ def _worker(task):
             eng = llsym.Engine(_MOD[modkey], params=params, maxsteps=opts.get('maxsteps', 2000000), timeout_ms=opts.get('timeout_ms', 60000))
             eng.clock_step_us = opts.get('clock_step_us', 1000000)
             eng.maxsamples = opts.get('samples', 4)
+            eng.simp = opts.get('simplify', False)
             eng.prepare('@' + entry)
             _ENG[key] = eng
         # reset per-task accumulators
@@ -72,7 +73,8 @@ def run_native(exe, entry, params, inputs, timeout=60):
         elif rc == 77: st = 'assume'
         elif rc == 99: st = 'assert'
         elif rc in (96, 97, 98) or 'Sanitizer' in out or 'runtime error' in out: st = 'sanitizer'
-        else: st = 'crash(%d)' % rc
+        elif rc < 0: st = 'crash(%d)' % rc
+        else: st = 'error(%d)' % rc
         return st, notes, out
     finally:
         shutil.rmtree(d, ignore_errors=True)
